@@ -300,9 +300,15 @@ def chunks {β : Type} (ldim : Nat) : Nat → List β → List (List β)
   | 0, _ => []
   | k + 1, l => l.take ldim :: chunks ldim k (l.drop ldim)
 
-/-- `ref_mpi_blindsend(ref_mpi, proc, data, ldim, nsend, &recv, &nrecv, type)` on every rank: the received items -/
+/-- `ref_mpi_blindsend(ref_mpi, proc, data, ldim, nsend, &recv, &nrecv, type)` on every rank: the received items.
+    Two guards stand for what the C cannot survive: a destination outside the world (the C indexes `a_size[proc]` out of
+    bounds), and an exchange of more than `INT_MAX / ldim` records in total (the `ref_math_int_*` guards of
+    `ref_mpi_alltoallv` fail on per-rank counts; the model gives up on the total, which is never smaller). -/
 def blindItems {β : Type} [Inhabited β] (ty : RefType) (ldim : Nat) (w : World (List (Nat × List β))) :
     Except ISt (World (List (List β))) :=
+  if w.any (fun ps => ps.any fun x => decide (w.length ≤ x.1)) then .error .failure
+  else if decide (INT_MAX < (ldim : Int) * ((w.map List.length).foldl (· + ·) 0 : Nat)) then .error .failure
+  else
   match blindsend false ty 32767 ldim (w.map fun ps => ⟨ps.map fun x => (x.1 : Int), (ps.map (·.2)).flatten⟩) with
   | none => .error .failure
   | some res =>
